@@ -362,8 +362,8 @@ impl Bdd {
                                 )
                                     .into(),
                                 (
-                                    lo_paths.cmodels + hi_paths.cmodels,
-                                    lo_paths.models + hi_paths.models,
+                                    lo_paths.cmodels.saturating_add(hi_paths.cmodels),
+                                    lo_paths.models.saturating_add(hi_paths.models),
                                 )
                                     .into(),
                                 std::cmp::max(lodepth, hidepth) + 1,
@@ -457,8 +457,8 @@ impl Bdd {
                 )
                     .into(),
                 (
-                    lo_paths.cmodels + hi_paths.cmodels,
-                    lo_paths.models + hi_paths.models,
+                    lo_paths.cmodels.saturating_add(hi_paths.cmodels),
+                    lo_paths.models.saturating_add(hi_paths.models),
                 )
                     .into(),
                 std::cmp::max(lodepth, hidepth) + 1,
@@ -499,8 +499,8 @@ impl Bdd {
                     )
                         .into(),
                     (
-                        lo_paths.cmodels + hi_paths.cmodels,
-                        lo_paths.models + hi_paths.models,
+                        lo_paths.cmodels.saturating_add(hi_paths.cmodels),
+                        lo_paths.models.saturating_add(hi_paths.models),
                     )
                         .into(),
                     std::cmp::max(lodepth, hidepth) + 1,
